@@ -624,6 +624,10 @@ fn block_on<F: std::future::Future>(f: F) -> F::Output {
     })
 }
 
+thread_local! {
+    static LIMITED: RefCell<std::collections::HashMap<usize, Arc<datafusion_execution::runtime_env::RuntimeEnv>>> = RefCell::new(Default::default());
+}
+
 fn task_ctx(cfg: &Cfg) -> Arc<TaskContext> {
     static RT_ENV: std::sync::OnceLock<Arc<datafusion_execution::runtime_env::RuntimeEnv>> = std::sync::OnceLock::new();
     let rt = RT_ENV.get_or_init(|| RuntimeEnvBuilder::new().build_arc().expect("runtime env")); // unbounded pool, stateless here
@@ -638,7 +642,13 @@ fn task_ctx(cfg: &Cfg) -> Arc<TaskContext> {
     }
     let rt = match cfg.mem_limit {
         None => Arc::clone(rt),
-        Some(l) => RuntimeEnvBuilder::new().with_memory_limit(l, 1.0).build_arc().expect("runtime env"),
+        // one environment per (worker thread, limit): the pool is back at zero after every case and the
+        // disk manager's temporary directory is reused
+        Some(l) => LIMITED.with(|m| {
+            Arc::clone(m.borrow_mut().entry(l).or_insert_with(|| {
+                RuntimeEnvBuilder::new().with_memory_limit(l, 1.0).build_arc().expect("runtime env")
+            }))
+        }),
     };
     Arc::new(TaskContext::new(
         None,
@@ -845,7 +855,7 @@ fn layouts(n: usize) -> Vec<(Vec<usize>, Vec<Vec<usize>>)> {
 
 /// Pool limits of the memory sweep; chosen from a measured outcome table (see evidence counters
 /// `mem_<limit>_*`): they span "cannot even start" .. "spills" .. "fits".
-const MEM_GRID: [usize; 8] = [1, 256, 1024, 2048, 4096, 8192, 16384, 65536];
+const MEM_GRID: [usize; 7] = [1, 4096, 6000, 8192, 12000, 16384, 32768];
 
 const ALL_MODES: [Mode; 6] = [
     Mode::Single,
@@ -864,6 +874,8 @@ enum Opts {
     Dev1,
     /// the default options only
     Default,
+    /// the default options, with the migrated and with the fallback stream implementations
+    MigrationBoth,
 }
 
 fn configs(key: KeyTy, modes: &[Mode], opts: Opts) -> Vec<Cfg> {
@@ -888,6 +900,7 @@ fn configs(key: KeyTy, modes: &[Mode], opts: Opts) -> Vec<Cfg> {
                             Opts::Full => true,
                             Opts::Dev1 => deviations <= 1,
                             Opts::Default => deviations == 0,
+                            Opts::MigrationBoth => deviations == usize::from(!migration),
                         };
                         if keep {
                             out.push(Cfg { mode: *mode, order: *order, migration, skip_partial, batch_size, mem_limit: None });
@@ -933,6 +946,7 @@ fn sweeps(ctx: &Ctx) -> Vec<Sweep> {
     let mut v = vec![];
     let all = ALL_MODES.to_vec();
     let main3 = vec![Mode::Single, Mode::PartialFinal, Mode::PartialFinalPartitioned];
+    let main2 = vec![Mode::Single, Mode::PartialFinal];
     let sw = |key, aggs, n_lo, n_hi, modes: &Vec<Mode>, opts| Sweep { key, aggs, n_lo, n_hi, modes: modes.clone(), opts, mem: vec![] };
     // Int64 key, basic aggregates
     v.push(sw(KeyTy::I64, AggSet::Basic, 0, if t { 3 } else { 2 }, &all, Opts::Full));
@@ -940,7 +954,7 @@ fn sweeps(ctx: &Ctx) -> Vec<Sweep> {
     // other key types
     for k in [KeyTy::NoKey, KeyTy::Utf8, KeyTy::Utf8View, KeyTy::Dict, KeyTy::Bool, KeyTy::Dec] {
         v.push(sw(k, AggSet::Basic, 0, 2, &all, if t { Opts::Full } else { Opts::Dev1 }));
-        v.push(sw(k, AggSet::Basic, 3, 3, if t { &all } else { &main3 }, if t { Opts::Dev1 } else { Opts::Default }));
+        v.push(sw(k, AggSet::Basic, 3, 3, if t { &all } else { &main2 }, if t { Opts::Dev1 } else { Opts::Default }));
     }
     // two key columns (18-row alphabet)
     v.push(sw(KeyTy::I64Utf8, AggSet::Basic, 0, 2, &all, if t { Opts::Full } else { Opts::Dev1 }));
@@ -959,15 +973,21 @@ fn sweeps(ctx: &Ctx) -> Vec<Sweep> {
         One::BoolAnd,
     ] {
         v.push(sw(KeyTy::I64, AggSet::One(o), 0, 2, &all, Opts::Dev1));
-        v.push(sw(KeyTy::I64, AggSet::One(o), 3, 3, if t { &all } else { &main3 }, if t { Opts::Dev1 } else { Opts::Default }));
+        v.push(sw(KeyTy::I64, AggSet::One(o), 3, 3, if t { &all } else { &main2 }, if t { Opts::Dev1 } else { Opts::Default }));
     }
     // memory limits: the operator may spill, emit early or give up (ResourcesExhausted), never answer wrongly
     let grid: Vec<usize> = std::env::var("C06_MEM_GRID")
         .ok()
         .map(|g| g.split(',').filter_map(|x| x.parse().ok()).collect())
-        .unwrap_or_else(|| MEM_GRID.to_vec());
-    for key in [KeyTy::I64, KeyTy::Utf8] {
-        let mut s = sw(key, AggSet::Basic, 2, 3, &all, Opts::Dev1);
+        .unwrap_or_else(|| if t { MEM_GRID.to_vec() } else { vec![8192] });
+    if t {
+        for key in [KeyTy::I64, KeyTy::Utf8] {
+            let mut s = sw(key, AggSet::Basic, 2, 3, &all, Opts::Dev1);
+            s.mem = grid.clone();
+            v.push(s);
+        }
+    } else {
+        let mut s = sw(KeyTy::I64, AggSet::Basic, 3, 3, &main3, Opts::MigrationBoth);
         s.mem = grid.clone();
         v.push(s);
     }
@@ -977,7 +997,7 @@ fn sweeps(ctx: &Ctx) -> Vec<Sweep> {
         for key in if t { vec![KeyTy::I64, KeyTy::Utf8] } else { vec![KeyTy::I64] } {
             for aggs in [AggSet::One(One::TopKMin(k)), AggSet::One(One::TopKMax(k))] {
                 v.push(sw(key, aggs, 0, 2, &topk_modes, if t { Opts::Full } else { Opts::Dev1 }));
-                v.push(sw(key, aggs, 3, 3, &topk_modes, if t { Opts::Dev1 } else { Opts::Default }));
+                v.push(sw(key, aggs, 3, 3, if t { &topk_modes } else { &main3 }, if t { Opts::Dev1 } else { Opts::Default }));
             }
         }
     }
@@ -1049,6 +1069,9 @@ fn explore(ctx: &Ctx) {
                     if let Some(l) = c.cfg.mem_limit {
                         let o = if st.exhausted { "resources_exhausted" } else if st.spills > 0 { "ok_spilled" } else { "ok_no_spill" };
                         *per_mode.entry(format!("mem_{l:06}_{o}")).or_default() += 1;
+                        if std::env::var("C06_MEM_DETAIL").is_ok() {
+                            *per_mode.entry(format!("memdetail_{l:06}_{:?}_{}_{:?}_{o}", c.cfg.mode, if c.cfg.migration { "mig" } else { "nomig" }, c.cfg.order)).or_default() += 1;
+                        }
                         if st.exhausted {
                             continue; // allowed outcome, nothing to compare
                         }
